@@ -58,6 +58,19 @@ class VersorStub:
         pn = b.point_of[vid]
         return self.u(ln, pn, fk)
 
+    def _default_direction(self, fk, ln, pn):
+        """chord direction in the catalogue's default geometry: a hint for the sat-side sampler only."""
+        try:
+            b = self.builts[fk] if isinstance(self.builts, dict) else self.builts
+            pts = b.spec.lines[ln]
+            a, c = (pts[0], pts[1]) if pts[0] == pn else (pts[-1], pts[-2])
+            (xa, ya), (xc, yc) = b.spec.points[a], b.spec.points[c]
+            dx, dy = float(xc) - float(xa), float(yc) - float(ya)
+            n = (dx * dx + dy * dy) ** 0.5
+            return (dx / n, dy / n) if n else None
+        except Exception:  # noqa
+            return None
+
     def u(self, ln, pn, fk=None):
         key = (fk, ln, pn)
         if key not in self.values:
@@ -66,6 +79,11 @@ class VersorStub:
             if self.unit:
                 if self.env.mode == "sym":
                     self.env.assume(ux * ux + uy * uy == 1)
+                    self.env.hint_unit(tag + "_x", tag + "_y")
+                    d = self._default_direction(fk, ln, pn)
+                    if d is not None:
+                        self.env.hint_value(tag + "_x", d[0])
+                        self.env.hint_value(tag + "_y", d[1])
             arr = np.empty(2, dtype=object)
             arr[0], arr[1] = ux, uy
             self.values[key] = arr.view(SymArray) if self.env.mode == "sym" else np.array([ux, uy], dtype=float)
